@@ -15,6 +15,9 @@ mutual
     Duration, wrapper and map fields as commented below -/
 inductive SlotOk (S : Schema) : FieldD → Val → Prop
   | flat (f : FieldD) (v : Val) : FlatField f → flatSlotOk f v = true → SlotOk S f v
+  -- an unset slot of ANY field kind (also the kinds named as missing below) emits nothing
+  | unsetAny (f : FieldD) : f.optional = false → SlotOk S f Val.ph
+  | noneAny (f : FieldD) : f.optional = true → SlotOk S f Val.none
   | unsetSub (f : FieldD) (c : Nat) : SubField f c → f.optional = false → SlotOk S f Val.ph
   | noneSub (f : FieldD) (c : Nat) : SubField f c → f.optional = true → SlotOk S f Val.none
   | sub (f : FieldD) (c : Nat) (sl : List Val) (ow : Bool) (unk : Bytes) (cur : List (Option Nat)) :
